@@ -94,7 +94,7 @@ PLANS["C18"] = {
         "thorough": [("", "release", 301 * 7 * 300), ("", "dev", 301 * 7 * 60)],
     },
     "rule": "a case is a byte string of length idx mod 301 (every length 0..300 in every run; content random / all-zero / all-ones / boundary-digit (Z85 digits 0 and 84, 5- and 6-bit groups all-zero or all-one) / "
-            "structured / printable) encoded by base32, base32hex, base64 and zero85 from one of six input forms (string, byte vector, "
+            "structured / printable) encoded by base32, base32hex, base64 and zero85 from one of seven input forms (byte-aligned view into a longer buffer, string, byte vector, "
             "nested vectors, aligned bit-string, bit-string sliced at bit offset 1..7), compared with independent reference encoders, "
             "decoded back, plus three mutated/arbitrary texts per codec and >bitstr-acceptance probes. distinct = distinct (length, "
             "content class, repetition)",
@@ -103,7 +103,7 @@ PLANS["C18"] = {
                     "(incl. documented case / O I L aliases) nor the padding character; such text must decode to nil. Text made of "
                     "alphabet characters with wrong length or misplaced padding may decode to nil or to some bit-string, never an error"],
     "require": [need("round_trips", 10000), need_set("invalid_text_classes", 7), need_set("lengths_mod_20", 20),
-                need("invalid_text_nil", 5000), need("form:unaligned-bitstr", 1000), need("acceptance_checks", 500)],
+                need("invalid_text_nil", 5000), need("form:unaligned-bitstr", 1000), need("form:aligned-view-of-longer-buffer", 1000), need("acceptance_checks", 500)],
 }
 
 G1_RULE = ("a case is a random program from the control-flow grammar (literals, stack words, if/else/then, case/of/endof/endcase, "
